@@ -123,6 +123,21 @@ PROPS = {
 }
 
 
+def _phase_bindgen(prop, tier, seed, report):
+    import gensim
+    return gensim.phase_bindgen(prop, tier, seed, report)
+
+
+PROPS["C18"] = {
+    "jobs": [],
+    "extra_phases": [_phase_bindgen],
+    "rule": "one evaluation = one (header model, tool configuration, command-line shape) run through the real cglue-bindgen binary under 6 (quick) / 12 (thorough) process hash seeds with a fake cbindgen subprocess; distinct = distinct output digest; non-trivial = the tool accepted the header and produced output",
+    "real": ["cglue-bindgen binary built from /repo (main.rs argument splitting, config, codegen/c.rs, types.rs)", "cc -std=c99 -fsyntax-only", "glibc dynamic loader (LD_PRELOAD)"],
+    "stub": ["cbindgen (fake executable on PATH printing the run's header, recording argv, failing on request)", "getrandom (shim: hash seed = f(SIMRAND_SEED))", "input headers (hdrgen: model of cbindgen's output shape; C mode only)"],
+    "assumptions": COMMON_ASSUMPTIONS + ["hdrgen is a model of an external tool: its shapes are taken from the regular expressions in codegen/c.rs and from bindings.h; no real cbindgen exists offline", "C++ mode is not modelled"],
+}
+
+
 def job_for(package, engine, label=None, extra_args=None):
     for j in ALL_JOBS:
         if j.package == package and j.engine == engine and (label is None or j.label == label):
@@ -133,8 +148,14 @@ def job_for(package, engine, label=None, extra_args=None):
 def build_all():
     for pkg in sorted(set(j.package for j in ALL_JOBS)):
         cargo_build(pkg, False)
-        cargo_build(pkg, True)
+    cargo_build("primsim", True)
+    import gensim
+    gensim.build_shim()
+    gensim.build_bindgen()
 
 
 def replay_special(prop, doc, path):
+    if doc.get("kind") == "bindgen":
+        import gensim
+        return gensim.replay_bindgen(prop, doc, path)
     raise NotImplementedError(doc.get("kind"))
